@@ -24,6 +24,7 @@ stratified subset (both diagonal orientations, both coordinate systems, levels 1
 with TLC's tables; a clean ImportError is recorded and not judged.
 """
 import collections
+import concurrent.futures
 import json
 import os
 import pickle
@@ -56,6 +57,7 @@ CONSTANTS
  Configs <- MCConfigs
 INVARIANT ArrivedIsItsTile
 INVARIANT ArrivedGridIsCentres
+INVARIANT DeliveredAllOK
 INVARIANT LagBounded
 INVARIANT Emit
 CHECK_DEADLOCK FALSE
@@ -115,10 +117,10 @@ def _pick_config(ctx, rng, depth, keep, apex_level, lo, hi, **kw):
         acc = _random_acc(rng, depth, keep) if keep is not None else _all_positions(depth)
         conf = dict(depth=depth, acc=acc, apex=(0, 0, 0), user=keep is not None, **kw)
         if apex_level:
-            cands = sorted(p for p in acc if p[0] == apex_level and _reached_leaves(dict(conf, depth=apex_level)).count(p))
+            cands = _reached_leaves(dict(conf, depth=apex_level))      # positions of that level the filtered walk gets to
             if not cands:
                 continue
-            conf["apex"] = rng.choice(cands)
+            conf["apex"] = rng.choice(sorted(cands))
         ls = _reached_leaves(conf)
         if lo <= len(ls) <= hi and len({_up(p, depth - 1) for p in ls}) >= 2:
             return conf
@@ -132,8 +134,8 @@ def leaf_configs(ctx, rng):
     q = ctx.quick
     out = []
     for i in range(1 if q else 3):
-        out.append(_pick_config(ctx, rng, 2, 0.6, 0, 4, 7, lags=True, reads=False))
-        out.append(_pick_config(ctx, rng, 3, 0.5, 1, 4, 6 if q else 7, lags=True, reads=True))
+        out.append(_pick_config(ctx, rng, 2, 0.6, 0, 5, 7, lags=True, reads=False))
+        out.append(_pick_config(ctx, rng, 3, 0.5, 1, 5, 7, lags=True, reads=True))
         out.append(_pick_config(ctx, rng, 3, None, 1, 16, 16, lags=False, reads=False))
         out.append(_pick_config(ctx, rng, 3, 0.7, 0, 8, 24, lags=False, reads=(i % 2 == 1)))
     if not q:
@@ -349,12 +351,9 @@ def real_visit(ctx, mods, conf, cs, cons, K):
     return kind, val, arrivals
 
 
-def check_arrivals(ctx, mods, tabs0, rng, worst, cons):
+def check_arrivals(ctx, mods, tabs0, rng, worst, cons, configs, tables, lags, R, K):
     """Routes (a) and (b) of the module docstring for the tile that arrives."""
     q = ctx.quick
-    configs = leaf_configs(ctx, rng)
-    R, D, K = (5, 3, 1) if q else (6, 3, 2)
-    tables, lags = run_leaf_tlc(ctx, configs, R, D, K, 4)
     css = toastlat.coordsystems()
     psis = {name: toastlat.psi_for(tabs0, name) for name, _ in css}
     gcache = {}
@@ -668,12 +667,23 @@ def run(ctx):
     from toasty.pyramid import Pos
     q = ctx.quick
     ctx.rule = ("tiles x pixels: TLC emits the K = 1..3 sub-sample grids of every tile of the bounded lattice; all 65536 pixels of every tile to depth 2 plus seeded deeper "
-                "tiles are compared with the spec's right-hand side; distinct = distinct (coordinate system, tile, npix); every case is non-trivial")
+                "tiles are compared with the spec's right-hand side; distinct = distinct (coordinate system, tile, npix); every case is non-trivial. "
+                "Tiles that arrive: seeded filtered pyramids (tile filter and / or sub-pyramid, depth 2-3) are handed to TLC, which emits their leaf tables and the reachable "
+                "feeder-lag vectors of the dispatch; the real visit_leaves(parallel=2) is driven through the extreme and seeded lag vectors, adversarial policies and real "
+                "processes; distinct = (configuration, coordinate system, schedule). Environment: one child interpreter per variable the library's source reads, and one without "
+                "the compiled extension; distinct = (configuration, coordinate system, tile, npix)")
     runs = [(5, 3, 1), (6, 2, 3)] if q else [(5, 3, 1), (6, 3, 2), (7, 3, 3)]
     # the new routes draw from their own generator, so that the tiles and pixels sampled below stay what they were
     rng2 = random.Random(ctx.seed * 7919 + 5)
     children = launch_env_children(ctx, rng2)
-    tabs = [toastlat.run_tlc(ctx, R, D, K) for (R, D, K) in runs]
+    lconfigs = leaf_configs(ctx, rng2)
+    LR, LD, LK = (5, 3, 1) if q else (6, 3, 2)
+    # the TLC runs are independent of each other: side by side
+    with concurrent.futures.ThreadPoolExecutor(max_workers=3) as ex:
+        futs = [ex.submit(toastlat.run_tlc, ctx, R, D, K) for (R, D, K) in runs]
+        lfut = ex.submit(run_leaf_tlc, ctx, lconfigs, LR, LD, LK, 4)
+        tabs = [f.result() for f in futs]
+        ltables, llags = lfut.result()
     worst = {"small": 0.0, "grid256": 0.0, "deeper-tile": 0.0, "lat-excess": 0.0, "outside": 0.0, "arrived": 0.0, "environment": 0.0}
     cons = toastlat.library_consumers()
     for csname, cs in toastlat.coordsystems():
@@ -778,7 +788,7 @@ def run(ctx):
     # ---- the tile that arrives at a worker of a parallel leaf visit of a filtered pyramid
     from toasty.pyramid import Pyramid
     mods = {"toast": toast, "subsample": getattr(toast, "subsample", subsample), "Pyramid": Pyramid, "Pos": Pos}
-    check_arrivals(ctx, mods, tabs[0], rng2, worst, cons)
+    check_arrivals(ctx, mods, tabs[0], rng2, worst, cons, lconfigs, ltables, llags, LR, LK)
     # ---- the process environment
     judge_env_children(ctx, children, tabs, worst)
     ctx.note("worst_deviation", worst)
@@ -786,3 +796,5 @@ def run(ctx):
     ctx.sample({"tile": list(e["pos"]), "K": tabs[0].K, "R": tabs[0].R, "grid_lattice_points": e["grid"]})
     ctx.assume("normalize(a + b) is the great-circle midpoint; lib/lattice.Psi.grid (vectorised) is cross-checked against the scalar recursion on every run of C04")
     ctx.assume("the compiled toasty._libtoasty is what is exercised; the .pyx cannot be rebuilt here (no Cython)")
+    ctx.assume("multiprocessing.Queue behaves like lib/simmp.py's fake one, with the item pickled when the feeder flushes it (CPython 3.12 Queue._feed); the real-process runs sample that")
+    ctx.assume("the environment variables the library reads are spelled as string literals next to os.environ / getenv in its source")
